@@ -132,7 +132,9 @@ def replicat_writes_ref_reads(cfg_i, tree_i, chunking_i, conc, overlap=False):
         paths = [src]
         if overlap:        # overlapping arguments: the directory, a sub-directory of it, and a file inside
             paths = [src, src / 'sub', sorted(src.glob('*.bin'))[0]]
+        tick0 = rt._DetDatetime._tick
         snap = rt.MiniLoop().run_until_complete(repo.snapshot(paths=paths, note='nøte'))
+        tick1 = rt._DetDatetime._tick
         key_json = repo.serialize(init.key) if init.key is not None else None
         try:
             ref = RF.Repo(be.objs['config'], key_json, b'pw')
@@ -141,6 +143,18 @@ def replicat_writes_ref_reads(cfg_i, tree_i, chunking_i, conc, overlap=False):
                 return False, f'reference reader finds snapshots {[s["name"][:8] for s in snaps]}'
             if snaps[0]['data'].get('note') != 'nøte':
                 return False, 'note differs'
+            # `utc_timestamp` is the UTC time of the snapshot in str(datetime) form (the harness clock is the ground truth; local
+            # time in this model is hours away from UTC)
+            import datetime as _dtm
+            raw = snaps[0]['data'].get('utc_timestamp')
+            try:
+                ts = _dtm.datetime.fromisoformat(raw)       # (what replicat's own readers use)
+                if ts.tzinfo is not None:
+                    ts = ts.astimezone(_dtm.timezone.utc).replace(tzinfo=None)
+            except Exception:
+                return False, f'utc_timestamp {raw!r} is not an ISO date-time'
+            if not (rt._DetDatetime.true_utc(tick0) <= ts <= rt._DetDatetime.true_utc(tick1 + 1)):
+                return False, f'utc_timestamp {raw!r} is not the UTC time of the snapshot ({rt._DetDatetime.true_utc(tick0)} .. {rt._DetDatetime.true_utc(tick1 + 1)})'
             files = ref.read_files(be.objs, snaps[0])
         except RF.FormatError as e:
             return False, f'reference reader rejects what replicat wrote: {e}'
